@@ -232,7 +232,8 @@ impl Check for C06 {
                "stub": ["reqwest client + TLS + TCP + S3 (in-process endpoint)"]})
     }
     fn required_probes(&self, _tier: Tier) -> Vec<&'static str> {
-        vec!["chunk.new_ok", "chunk.new_err", "file.header_ok", "file.header_err", "record.decompress_ok", "record.decompress_err", "record.messages_ok", "file.scan_ok", "file.scan_err", "fault.short_object", "fault.body_cut", "download_error"]
+        // workload-side probes only (what was served and exercised, not what the code chose to return)
+        vec!["api.file", "api.record", "fault.short_object", "fault.body_cut", "fault.stored_damage", "fault.size_prefix"]
     }
     fn budget_s(&self, tier: Tier) -> u64 {
         match tier {
